@@ -670,7 +670,7 @@ func (tr *fnTrans) specCall(x ECall, env *specEnv) (Term, error) {
 		return T("(_ -oo 11 53)", SF64), nil
 	}
 	if x.Fn == "i2f" || x.Fn == "f2i" {
-		tr.uses["conv"] = true
+		_ = "conv axioms are opt-in (uses conv): identical conversion terms need no axioms"
 	}
 	sig, ok := tr.v.prelude.Sigs[x.Fn]
 	if !ok {
